@@ -356,7 +356,19 @@ func (g *gen) scene(distinguishable bool) *scene {
 	for i := 0; i < n; i++ {
 		switch g.rn(10) {
 		case 0, 1, 2, 3, 4:
-			s.arts = append(s.arts, s.p.addRaw(g.content(size())))
+			// sometimes a DIFFERENT artifact with the same bytes as an earlier RawBytes one:
+			// identity is the slice, not the content
+			var twin []byte
+			for _, a := range s.arts {
+				if a.raw && g.rn(3) == 0 {
+					twin = a.content
+				}
+			}
+			if twin != nil {
+				s.arts = append(s.arts, s.p.addRaw(twin))
+			} else {
+				s.arts = append(s.arts, s.p.addRaw(g.content(size())))
+			}
 		case 5, 6:
 			if imgs == 0 || g.rn(3) == 0 { // a second image makes the comparator panic: keep it rare
 				s.arts = append(s.arts, s.p.addImage(g.content(size())))
